@@ -393,7 +393,9 @@ class Evaluator:
             v = self.operand(fr, rv[2])
             if rv[1] in ("IntToInt", "IntToFloat", "FloatToFloat", "Transmute", "PtrToPtr", "Subtype") or rv[1].startswith("Coerce"):
                 if rv[1] == "IntToInt" and isinstance(v, int) and rv[3] in ("u8", "u16", "u32", "u64", "usize") and v < 0:
-                    raise Unsupported("negative to unsigned cast")
+                    if not getattr(self, "wrap_casts", False):
+                        raise Unsupported("negative to unsigned cast")
+                    v &= (1 << {"u8": 8, "u16": 16, "u32": 32, "u64": 64, "usize": 64}[rv[3]]) - 1
                 if rv[1] == "IntToInt" and isinstance(v, int) and not isinstance(v, bool):
                     bits = {"u8": 8, "u16": 16, "u32": 32, "i8": 8, "i16": 16, "i32": 32, "u64": 64, "i64": 64, "usize": 64, "isize": 64}.get(rv[3])
                     if bits and not -(1 << (bits - 1)) <= v < (1 << bits):
@@ -491,6 +493,9 @@ class Evaluator:
         if short.split("::<")[0] in ("core::ops::deref::Deref::deref", "core::ops::deref::DerefMut::deref_mut", "core::convert::AsRef::as_ref",
                                      "core::borrow::Borrow::borrow") and args and isinstance(args[0], Ref):
             return args[0]      # smart-pointer deref: the pointee is addressed by the same access path
+        if short == "core::default::Default::default" and not args and c.get("args") and c["args"][0] in (
+                "u8", "u16", "u32", "u64", "usize", "i8", "i16", "i32", "i64", "isize", "bool"):
+            return 0
         if short in ("core::cmp::PartialEq::eq", "core::cmp::PartialEq::ne"):
             a, b = self.deref_val(args[0]), self.deref_val(args[1])
             r = self.binop("Eq", a, b)
@@ -508,6 +513,18 @@ class Evaluator:
                 if ity.startswith("i") and r >= 1 << (bits - 1):
                     r -= 1 << bits
                 return r
+            if bits and meth in ("saturating_add_unsigned", "saturating_sub_unsigned", "wrapping_add_unsigned", "wrapping_sub_unsigned",
+                                 "checked_add_unsigned") and len(args) == 2:
+                r = args[0] + args[1] if "add" in meth else args[0] - args[1]
+                lo, hi = -(1 << (bits - 1)), (1 << (bits - 1)) - 1
+                if meth.startswith("saturating"):
+                    return max(lo, min(hi, r))
+                if meth.startswith("checked"):
+                    return Enum("core::option::Option", 1, "Some", [r]) if lo <= r <= hi else Enum("core::option::Option", 0, "None", [])
+                r &= (1 << bits) - 1
+                return r - (1 << bits) if r > hi else r
+            if bits and meth == "is_power_of_two" and len(args) == 1:
+                return int(args[0] > 0 and args[0] & (args[0] - 1) == 0)
             if bits and meth in ("saturating_sub", "saturating_add"):
                 r = args[0] - args[1] if "sub" in meth else args[0] + args[1]
                 lo, hi = (0, (1 << bits) - 1) if ity.startswith("u") else (-(1 << (bits - 1)), (1 << (bits - 1)) - 1)
